@@ -121,6 +121,18 @@ def replay(case):
                     if abs(lam - w[-1]) > 1e-8 * scale or abs(ov - 1) > 1e-6:
                         out.append(('als:%s:fullrank:%s' % (solver, kind), 'guess of maximal ranks does not give the exact extremal '
                                     'eigenpair: lambda %r vs %r, overlap %r (dims %r)' % (lam, w[-1], ov, dims)))
+                # operators of large and of tiny magnitude (A x 2^30, A x 2^-30): eigenvalues scale, eigenvectors stay
+                for e2 in (30, -30):
+                    fac = 2.0 ** e2
+                    lam, t, it = evp.als(fac * A, xfull, repeats=1, solver=solver, sigma=(w[-1] + 1.0) * fac, **kw)
+                    wl = w[-1] * fac
+                    pm = metadata_problem(t)
+                    x = vec(t) if not pm else None
+                    ov = abs(x.conj() @ Bd @ vt) / np.sqrt(abs(x.conj() @ Bd @ x)) if x is not None else 0.0
+                    if pm or abs(lam - wl) > 1e-8 * max(abs(wl), fac) or abs(ov - 1) > 1e-6:
+                        out.append(('als:%s:fullrank:scaled:%s' % (solver, kind), 'operator scaled by 2^%d: guess of maximal ranks does not give the '
+                                    'exact extremal eigenpair: lambda %r vs %r, overlap %r (dims %r)' % (e2, lam, wl, ov, dims)))
+                        break
         if bot_sep and N > 2:
             lam, t, it = evp.als(A, xfull, repeats=1, solver='eig', sigma=w[0] - 1.0, **kw)
             if consistent(lam, t, 'als:eig') and abs(lam - w[0]) > 1e-8 * scale:
